@@ -284,7 +284,7 @@ Fixpoint subst (s : list expr) (e : expr) : expr :=
   end
 with bsubst (s : list expr) (c : bexpr) : bexpr :=
   match c with
-  | Lt a b => Lt (subst s a) (subst s b) | Le a b => Le (subst s a) (subst s b)
+  | Lt a b => Lt (subst s a) (subst s b) | Le a b => Le (subst s a) (subst s b) | Eqf a b => Eqf (subst s a) (subst s b)
   | BAnd c d => BAnd (bsubst s c) (bsubst s d) | BOr c d => BOr (bsubst s c) (bsubst s d)
   | BNot c => BNot (bsubst s c) | BTrue => BTrue | BFalse => BFalse
   | BAbsDiffEq a b e => BAbsDiffEq (subst s a) (subst s b) (subst s e)
@@ -306,7 +306,7 @@ Fixpoint closed_below (n : nat) (e : expr) : bool :=
   end
 with bclosed_below (n : nat) (c : bexpr) : bool :=
   match c with
-  | Lt a b | Le a b => closed_below n a && closed_below n b
+  | Lt a b | Le a b | Eqf a b => closed_below n a && closed_below n b
   | BAnd c d | BOr c d => bclosed_below n c && bclosed_below n d
   | BNot c => bclosed_below n c
   | BTrue | BFalse => true
